@@ -5,10 +5,10 @@
    of free-running logs, and the comparison of final observables.
 
    input    = (mode codec cipher ocap icap ecap hw hr senders closers input peerread
-               inconsumer seed script closeafter latesend)
-   observed = (oracle inoracle events results wire (garbage eof peererr) counters delivered
+               inconsumer seed script closeafter latesend [(failafter immediate maxprocs)])
+   observed = (oracle inoracle events results wire (garbage eof peererr nofin) counters delivered
                (badendpoint foreign) (errgot errforeign) closeres (panics state doneclosed)
-               (inconclusive stuck) late) *)
+               (inconclusive stuck pumpafterwait) late) *)
 From Coq Require Import ZArith List Bool Arith.
 From FV Require Import Lib.Sx C03.Model.
 Import ListNotations.
@@ -19,7 +19,9 @@ Record scen := mkscen {
   sc_senders : list (list (Z * Z));        (* (id, body size) *)
   sc_closers : list bool;
   sc_input : list (Z * Z * Z);             (* (kind, id, size) *)
-  sc_inconsumer : Z; sc_closeafter : Z; sc_latesend : Z
+  sc_inconsumer : Z; sc_closeafter : Z; sc_latesend : Z;
+  sc_failafter : Z;                        (* >= 0: injected write failure after that many writes; -1: none *)
+  sc_immediate : Z
 }.
 
 Record obs := mkobs {
@@ -28,14 +30,14 @@ Record obs := mkobs {
   o_events : list (Z * Z * Z * Z);         (* (thread kind, index, point, arg) in arrival order *)
   o_results : list (list (Z * Z));
   o_wire : list (Z * Z * Z);               (* (id, frame size, body intact) *)
-  o_garbage : Z; o_eof : Z; o_peererr : Z;
+  o_garbage : Z; o_eof : Z; o_peererr : Z; o_nofin : Z;
   o_counters : list Z;
   o_delivered : list Z;
   o_badendpoint : Z; o_foreign : Z;
   o_errgot : Z; o_errforeign : Z;
   o_closeres : list Z;
   o_panics : Z; o_state : Z; o_doneclosed : Z;
-  o_inconcl : Z; o_stuck : Z;
+  o_inconcl : Z; o_stuck : Z; o_pumpafterwait : Z;
   o_late : list Z
 }.
 
@@ -53,11 +55,16 @@ Definition sx_b (s : sx) : option bool := match s with SInt z => Some (negb (z =
 
 Definition decode_scen (s : sx) : option scen :=
   match s with
-  | SList [SInt mode; SInt _codec; SInt _cipher; SInt ocap; SInt icap; SInt ecap; hw; hr; snd; cls; inp;
-           SInt _peerread; SInt incons; SInt _seed; _script; SInt closeafter; SInt latesend] =>
+  | SList (SInt mode :: SInt _codec :: SInt _cipher :: SInt ocap :: SInt icap :: SInt ecap :: hw :: hr :: snd :: cls :: inp ::
+           SInt _peerread :: SInt incons :: SInt _seed :: _script :: SInt closeafter :: SInt latesend :: extras) =>
+      let '(failafter, immediate) :=
+        match extras with
+        | SList (SInt f :: SInt i :: _) :: _ => (f, i)
+        | _ => (-1, 0)
+        end in
       match sx_b hw, sx_b hr, sx_listof (sx_listof sx_pair) snd, sx_listof sx_b cls, sx_listof sx_triple inp with
       | Some hw, Some hr, Some snd, Some cls, Some inp =>
-          Some (mkscen mode ocap icap ecap hw hr snd cls inp incons closeafter latesend)
+          Some (mkscen mode ocap icap ecap hw hr snd cls inp incons closeafter latesend failafter immediate)
       | _, _, _, _, _ => None
       end
   | _ => None
@@ -65,15 +72,15 @@ Definition decode_scen (s : sx) : option scen :=
 
 Definition decode_obs (s : sx) : option obs :=
   match s with
-  | SList [orc; inorc; evs; res; wire; SList [SInt garbage; SInt eof; SInt peererr]; cnt; deliv;
+  | SList [orc; inorc; evs; res; wire; SList (SInt garbage :: SInt eof :: SInt peererr :: fl); cnt; deliv;
            SList [SInt badep; SInt foreign]; SList [SInt errgot; SInt errforeign]; cres;
-           SList [SInt panics; SInt state; SInt doneclosed]; SList [SInt inconcl; SInt stuck]; late] =>
+           SList [SInt panics; SInt state; SInt doneclosed]; SList [SInt inconcl; SInt stuck; SInt paw]; late] =>
       match sx_listof sx_oracle orc, sx_listof sx_pair inorc, sx_listof sx_quad evs,
             sx_listof (sx_listof sx_pair) res, sx_listof sx_triple wire, sx_ints cnt, sx_ints deliv,
             sx_ints cres, sx_ints late with
       | Some orc, Some inorc, Some evs, Some res, Some wire, Some cnt, Some deliv, Some cres, Some late =>
-          Some (mkobs orc inorc evs res wire garbage eof peererr cnt deliv badep foreign errgot errforeign
-                      cres panics state doneclosed inconcl stuck late)
+          Some (mkobs orc inorc evs res wire garbage eof peererr (match fl with SInt n :: _ => n | _ => 0 end) cnt deliv badep foreign errgot errforeign
+                      cres panics state doneclosed inconcl stuck paw late)
       | _, _, _, _, _, _, _, _, _ => None
       end
   | _ => None
